@@ -86,21 +86,38 @@ class LinearEstimate(E2Contract):
             for on_para in (True, False):
                 out.append(("1q", kind, on_para, False))
         out += [("1q", "qst", True, True), ("1q", "povmt", False, True), ("1qt", "qst", True, False)]
+        # custom schedule lists (a 5th component): the full list reversed / with its first schedule repeated at the end
+        out += [("1q", "povmt", True, False, "permutation"), ("1q", "qst", True, False, "permutation"), ("1q", "qpt", True, False, "repetition"),
+                ("1q", "povmt", False, False, "repetition")]
         if tier == "thorough":
+            out += [("1q", "qmpt", True, False, "permutation"), ("1q", "qpt", False, False, "permutation"), ("1q", "qst", False, False, "repetition")]
             out += [("1q", "qpt", True, True), ("1qt", "povmt", True, False), ("1qt", "qst", False, False)]
         return out
 
+    @staticmethod
+    def _schedules(cfg, n_states, n_povms):
+        """(argument for the tomography class, the concrete schedule list it stands for)"""
+        variants, full = schedule_variants(cfg[1], n_states, n_povms)
+        v = cfg[4] if len(cfg) > 4 else "all"
+        return variants[v], (full if v == "all" else variants[v])
+
     def _setup(self, W, cfg):
-        s, kind, on_para, over = cfg
+        s, kind, on_para, over = cfg[:4]
         c_sys, states, povms = exact_testers(W, s, over)
         m_unknown = 3 if kind == "povmt" else 2
         testers = dict(states=states, povms=povms)
-        qt = build_qt(W, kind, testers, on_para, m_unknown, "all")
+        qt = build_qt(W, kind, testers, on_para, m_unknown, self._schedules(cfg, len(states), len(povms))[0])
         return c_sys, qt, m_unknown
 
     def inputs(self, W, cfg, mk):
-        s, kind, on_para, over = cfg
-        c_sys, qt, m_unknown = self._setup(W, cfg)
+        s, kind, on_para, over = cfg[:4]
+        try:
+            c_sys, qt, m_unknown = self._setup(W, cfg)
+        except Exception as e:  # noqa  -- the tomography class could not be constructed: an outcome of the real code, judged in run()
+            from qverif.core.errors import Undecided
+            if isinstance(e, Undecided):
+                raise
+            return dict(construction_error=e)
         sizes = [qt.num_outcomes(j) for j in range(qt.num_schedules)]
         f = [mk.array(f"f{j}_", sizes[j]) for j in range(qt.num_schedules)]
         g = [mk.array(f"g{j}_", sizes[j]) for j in range(qt.num_schedules)]
@@ -115,6 +132,8 @@ class LinearEstimate(E2Contract):
 
     def run(self, W, cfg, inp):
         np = W.np
+        if "construction_error" in inp:
+            raise inp["construction_error"]
         qt = inp["qt"]
         est = W.mod(STD + "linear_estimator").LinearEstimator()
         A, b = qt.calc_matA(), qt.calc_vecB()
@@ -125,12 +144,12 @@ class LinearEstimate(E2Contract):
         rs = est.calc_estimate_sequence(qt, [d1, d2])
         # exact data of the object that the variables x denote: the Born statistics of every schedule's circuit, computed by the
         # reference semantics (NOT through the model A, b under test: a model that disagrees with the circuits must not go unnoticed)
-        s, kind, on_para, over = cfg
+        s, kind, on_para, over = cfg[:4]
         c_sys, states, povms = exact_testers(W, s, over)
         ukind = UNKNOWN[kind]
         tmpl = empty_obj(W, ukind, c_sys, 3 if kind == "povmt" else 2, on_para)
         unknown = tmpl.generate_from_var(W.np.copy(inp["x"]))
-        _, full = schedule_variants(kind, len(states), len(povms))
+        _, full = self._schedules(cfg, len(states), len(povms))
         exact = []
         for sch in full:
             chain = []
